@@ -5,7 +5,7 @@
    that the regenerated chain is [(e,[e;e]); (s,[e;s])] with separator [s] and e <> s (for the
    current source e = backslash, s = comma; any other pair of distinct characters also passes). *)
 From Coq Require Import ZArith List.
-From FL Require Import Merge Merge_proofs MergeGen.
+From FL Require Import Merge Merge_proofs MergeGen MergeSrc MergeSrc_proofs.
 From FLGen Require Gen_merge.
 Import ListNotations.
 
@@ -33,8 +33,82 @@ Theorem C13_merge_partition :
 Proof. exact (partition_of_chain_ok Gen_merge.steps Gen_merge.sep eq_refl). Qed.
 Print Assumptions C13_merge_partition.
 
+(* ---- WHERE the merge is applied (regenerated from _validate_and_reformat_input, _merge_columns,
+   ThresholdOptimizer and InterpolatedThresholder on every run) ----
+   Both feature blocks are: kwargs.get -> check_consistent_length -> check_array(ensure_2d=False, dtype=None)
+   -> `if len(v.shape) > 1 and v.shape[1] > 1: v = _merge_columns(v)` on that same checked array
+   -> pd.Series(v.squeeze()); _merge_columns iterates feature_columns.astype(str) directly and applies
+   _join_names to every row (one key per row, nothing in between); fit and predict both take the key
+   vector from slot 2 of _validate_and_reformat_input(..., sensitive_features=<their own argument>). *)
+Theorem C13_merge_call_sites :
+  Gen_merge.sensitive_block = expected_sensitive_block /\
+  Gen_merge.control_block = expected_control_block /\
+  Gen_merge.merge_pipeline = expected_pipeline /\
+  Gen_merge.fit_path = expected_fit_path /\
+  Gen_merge.predict_path = expected_predict_path.
+Proof. exact (conj eq_refl (conj eq_refl (conj eq_refl (conj eq_refl eq_refl)))). Qed.
+Print Assumptions C13_merge_call_sites.
+
+(* the column a regenerated block produces for a table of stringified values *)
+Definition sensitive_column_src : list (list str) -> option (list str) :=
+  column_of Gen_merge.sensitive_block merge_src.
+Definition control_column_src : list (list str) -> option (list str) :=
+  column_of Gen_merge.control_block merge_src.
+
+(* fit and predict obtain the key vector from the same function, the same keyword and the same slot,
+   and that slot is the one the sensitive block returns; hence, for a fit-time table `tab` and a
+   predict-time table `tab'` with several columns, the key computed for row i at predict time equals
+   the key stored for row j at fit time iff the two rows are the same tuple of strings. *)
+Theorem C13_fit_predict_same_key :
+  p_source Gen_merge.predict_path = p_source Gen_merge.fit_path /\
+  forall (tab tab' : list (list str)) (col col' : list str),
+    (1 < ncols tab)%nat -> (1 < ncols tab')%nat ->
+    (forall r, In r tab -> r <> []) -> (forall r, In r tab' -> r <> []) ->
+    sensitive_column_src tab = Some col -> sensitive_column_src tab' = Some col' ->
+    length col = length tab /\ length col' = length tab' /\
+    forall i j, (i < length tab')%nat -> (j < length tab)%nat ->
+      (nth i col' [] = nth j col [] <-> nth i tab' [] = nth j tab []).
+Proof.
+  exact (fit_predict_same_key Gen_merge.fit_path Gen_merge.predict_path Gen_merge.sensitive_block
+           Gen_merge.steps Gen_merge.sep eq_refl eq_refl eq_refl eq_refl eq_refl eq_refl).
+Qed.
+Print Assumptions C13_fit_predict_same_key.
+
+(* both blocks: the produced column partitions the rows of a multi-column table by tuple equality *)
+Theorem C13_sensitive_block_partition :
+  forall (tab : list (list str)) (col : list str),
+    (1 < ncols tab)%nat -> (forall r, In r tab -> r <> []) ->
+    sensitive_column_src tab = Some col -> partition_ids str_eqb col = partition_ids row_eqb tab.
+Proof. exact (block_partition Gen_merge.sensitive_block Gen_merge.steps Gen_merge.sep eq_refl eq_refl eq_refl). Qed.
+Print Assumptions C13_sensitive_block_partition.
+
+Theorem C13_control_block_partition :
+  forall (tab : list (list str)) (col : list str),
+    (1 < ncols tab)%nat -> (forall r, In r tab -> r <> []) ->
+    control_column_src tab = Some col -> partition_ids str_eqb col = partition_ids row_eqb tab.
+Proof. exact (block_partition Gen_merge.control_block Gen_merge.steps Gen_merge.sep eq_refl eq_refl eq_refl). Qed.
+Print Assumptions C13_control_block_partition.
+
 (* non-vacuity: premises are satisfiable on values containing separator, backslash, empty string *)
 Example C13_example :
   let r := [[97; 44]; [92]; []] in r <> [] /\
   unmergep (chain_esc Gen_merge.steps) (chain_sep Gen_merge.sep) (merge_src r) = r.
 Proof. split; [discriminate | vm_compute; reflexivity]. Qed.
+
+(* non-vacuity of the call-site theorems: a 2-column fit table and a 2-column predict table whose naive
+   joins collide; both blocks produce a column, and the keys agree exactly for the equal tuples *)
+Example C13_example_sites :
+  let tab  := [[[97; 44]; [98]]; [[97]; [44; 98]]] in
+  let tab' := [[[97]; [44; 98]]; [[97; 44]; [98]]; [[97]; [98]]] in
+  (1 < ncols tab)%nat /\ (1 < ncols tab')%nat /\
+  (exists col col', sensitive_column_src tab = Some col /\ sensitive_column_src tab' = Some col' /\
+     nth 0 col' [] = nth 1 col [] /\ nth 1 col' [] = nth 0 col [] /\ nth 0 col' [] <> nth 0 col [] /\
+     ~ In (nth 2 col' []) col) /\
+  control_column_src tab <> None.
+Proof.
+  cbv zeta. split; [vm_compute; reflexivity|]. split; [vm_compute; reflexivity|]. split.
+  - eexists. eexists. split; [vm_compute; reflexivity|]. split; [vm_compute; reflexivity|].
+    vm_compute. repeat split; try reflexivity; try discriminate.
+    intros [H | [H | []]]; discriminate H.
+  - vm_compute. discriminate.
+Qed.
